@@ -1,13 +1,160 @@
-//! C05 seeds, field inventory and entry points for "blp" (stub: not built yet).
+//! C05 seeds, field inventory and entry points for BLP textures (wow_blp::parser::parse_blp).
+//!
+//! Every seed is produced by the library's own pipeline: a small RGBA test picture (built as a
+//! hand-filled `BlpImage` with Raw3 content and turned into an image with `blp_to_image`, so that
+//! this crate does not need the `image` crate) -> `convert::image_to_blp` -> `encode::encode_blp`.
+//!
+//! Not produced: BLP0. Its mipmaps live in external files (`encode_blp0` returns them separately)
+//! and `parse_blp` (no externals) answers `MissingImage(0)` for every BLP0 file, so no BLP0 file
+//! has an `ok` baseline through this entry point.
+//!
+//! Header layout (types/header.rs, parser/header.rs):
+//!   BLP2: magic 0, content u32 4, compression u8 8, alpha_bits u8 9, alpha_type u8 10,
+//!         has_mipmaps u8 11, width 12, height 16, offsets[16] 20, sizes[16] 84; content at 148
+//!   BLP1: magic 0, content u32 4, alpha_bits u32 8, width 12, height 16, extra u32 20,
+//!         has_mipmaps u32 24, offsets[16] 28, sizes[16] 92; content at 156
+//!   direct content: 256 x u32 palette; jpeg content: u32 header_size, header_size + 2 bytes.
 use crate::seed::{Aux, Seed};
-use crate::worker::Runner;
+use crate::worker::{errname, Runner};
+use wow_blp::convert::{image_to_blp, AlphaBits, Blp2Format, BlpOldFormat, BlpTarget, DxtAlgorithm, FilterType};
+use wow_blp::encode::encode_blp;
+use wow_blp::types::*;
 
-pub fn seed_names(_thorough: bool) -> Vec<String> {
-    Vec::new()
+struct Spec {
+    name: &'static str,
+    w: u32,
+    h: u32,
+    mips: bool,
+    quick: bool,
+}
+
+const SPECS: &[Spec] = &[
+    Spec { name: "blp2-dxt5-mip-16x16", w: 16, h: 16, mips: true, quick: true },
+    Spec { name: "blp1-jpeg-mip-8x8", w: 8, h: 8, mips: true, quick: true },
+    Spec { name: "blp2-dxt1-mip-16x16", w: 16, h: 16, mips: true, quick: false },
+    Spec { name: "blp2-dxt3-mip-16x4", w: 16, h: 4, mips: true, quick: false },
+    Spec { name: "blp2-raw1-a8-mip-16x4", w: 16, h: 4, mips: true, quick: false },
+    Spec { name: "blp2-raw1-a1-8x8", w: 8, h: 8, mips: false, quick: false },
+    Spec { name: "blp2-raw3-mip-8x8", w: 8, h: 8, mips: true, quick: false },
+    Spec { name: "blp2-jpeg-16x4", w: 16, h: 4, mips: false, quick: false },
+    Spec { name: "blp1-raw1-a8-mip-16x16", w: 16, h: 16, mips: true, quick: false },
+    Spec { name: "blp1-raw1-a0-16x4", w: 16, h: 4, mips: false, quick: false },
+    Spec { name: "blp1-jpeg-noalpha-mip-16x4", w: 16, h: 4, mips: true, quick: false },
+];
+
+pub fn seed_names(thorough: bool) -> Vec<String> {
+    SPECS.iter().filter(|s| thorough || s.quick).map(|s| s.name.to_string()).collect()
+}
+
+fn target(name: &str) -> BlpTarget {
+    let alg = DxtAlgorithm::RangeFit;
+    match name {
+        "blp2-dxt5-mip-16x16" => BlpTarget::Blp2(Blp2Format::Dxt5 { has_alpha: true, compress_algorithm: alg }),
+        "blp2-dxt1-mip-16x16" => BlpTarget::Blp2(Blp2Format::Dxt1 { has_alpha: false, compress_algorithm: alg }),
+        "blp2-dxt3-mip-16x4" => BlpTarget::Blp2(Blp2Format::Dxt3 { has_alpha: true, compress_algorithm: alg }),
+        "blp2-raw1-a8-mip-16x4" => BlpTarget::Blp2(Blp2Format::Raw1 { alpha_bits: AlphaBits::Bit8 }),
+        "blp2-raw1-a1-8x8" => BlpTarget::Blp2(Blp2Format::Raw1 { alpha_bits: AlphaBits::Bit1 }),
+        "blp2-raw3-mip-8x8" => BlpTarget::Blp2(Blp2Format::Raw3),
+        "blp2-jpeg-16x4" => BlpTarget::Blp2(Blp2Format::Jpeg { has_alpha: true }),
+        "blp1-raw1-a8-mip-16x16" => BlpTarget::Blp1(BlpOldFormat::Raw1 { alpha_bits: AlphaBits::Bit8 }),
+        "blp1-raw1-a0-16x4" => BlpTarget::Blp1(BlpOldFormat::Raw1 { alpha_bits: AlphaBits::NoAlpha }),
+        "blp1-jpeg-mip-8x8" => BlpTarget::Blp1(BlpOldFormat::Jpeg { has_alpha: true }),
+        "blp1-jpeg-noalpha-mip-16x4" => BlpTarget::Blp1(BlpOldFormat::Jpeg { has_alpha: false }),
+        _ => wverif_common::tool_error(&format!("blp: unknown seed {name}")),
+    }
+}
+
+/// A w x h colour/alpha gradient as a Raw3 `BlpImage` (ARGB words).
+fn picture(w: u32, h: u32) -> BlpImage {
+    let mut pixels = Vec::with_capacity((w * h) as usize);
+    for y in 0..h {
+        for x in 0..w {
+            let r = (x * 255 / w.max(2).saturating_sub(1).max(1)) & 0xFF;
+            let g = (y * 255 / h.max(2).saturating_sub(1).max(1)) & 0xFF;
+            let b = ((x * 7 + y * 13) * 5) & 0xFF;
+            let a = if (x + y) % 3 == 0 { 0 } else { 0x40 + ((x * 11 + y * 17) & 0xBF) };
+            pixels.push((a << 24) | (r << 16) | (g << 8) | b);
+        }
+    }
+    let content = BlpRaw3 { cmap: vec![0; 256], images: vec![Raw3Image { pixels }] };
+    let header = BlpHeader {
+        version: BlpVersion::Blp2,
+        content: BlpContentTag::Direct,
+        flags: BlpFlags::Blp2 { compression: Compression::Raw3, alpha_bits: 8, alpha_type: AlphaType::None, has_mipmaps: 0 },
+        width: w,
+        height: h,
+        mipmap_locator: content.mipmap_locator(BlpVersion::Blp2),
+    };
+    BlpImage { header, content: BlpContent::Raw3(content) }
 }
 
 pub fn build(name: &str) -> Seed {
-    wverif_common::tool_error(&format!("blp: unknown seed {name}"))
+    let spec = SPECS.iter().find(|s| s.name == name).unwrap_or_else(|| wverif_common::tool_error(&format!("blp: unknown seed {name}")));
+    let img = wow_blp::convert::blp_to_image(&picture(spec.w, spec.h), 0).expect("blp: test picture");
+    let blp = image_to_blp(img, spec.mips, target(name), FilterType::Nearest).expect("blp: image_to_blp");
+    let bytes = encode_blp(&blp).expect("blp: encode_blp");
+    let mut s = Seed::new("blp", name, bytes);
+    let len = s.bytes.len();
+
+    let blp2 = blp.header.version == BlpVersion::Blp2;
+    let (loc, content_at) = if blp2 { (20usize, 148usize) } else { (28usize, 156usize) };
+    assert_eq!(BlpHeader::size(blp.header.version), content_at);
+    assert_eq!(s.u32_at(12), spec.w);
+    assert_eq!(s.u32_at(16), spec.h);
+
+    s.field(0, 4, "index", "hdr.magic");
+    s.field(4, 4, "index", "hdr.content");
+    if blp2 {
+        s.field(8, 1, "index", "hdr.compression");
+        s.field(9, 1, "index", "hdr.alpha_bits");
+        s.field(10, 1, "index", "hdr.alpha_type");
+        s.field(11, 1, "index", "hdr.has_mipmaps");
+    } else {
+        s.field(8, 4, "index", "hdr.alpha_bits");
+        s.field(20, 4, "index", "hdr.extra");
+        s.field(24, 4, "index", "hdr.has_mipmaps");
+    }
+
+    // bytes per pixel row / column of mip 0 (what width/height are multiplied with)
+    let mip0_off = s.u32_at(loc) as usize;
+    let (row_unit, col_unit) = match &blp.content {
+        BlpContent::Raw1(_) => (spec.h as usize, spec.w as usize),
+        BlpContent::Raw3(_) => (spec.h as usize * 4, spec.w as usize * 4),
+        BlpContent::Dxt1(_) => ((spec.h as usize / 2).max(1), (spec.w as usize / 2).max(1)),
+        BlpContent::Dxt3(_) | BlpContent::Dxt5(_) => (spec.h as usize, spec.w as usize),
+        BlpContent::Jpeg(_) => (1, 1),
+    };
+    s.field_ex(12, 4, "count", "hdr.width", mip0_off, row_unit, None);
+    s.field_ex(16, 4, "count", "hdr.height", mip0_off, col_unit, None);
+
+    // mipmap locator: used slots, then the first unused one
+    let (offsets, sizes) = blp.header.internal_mipmaps().expect("blp: internal locator");
+    let used = sizes.iter().take_while(|&&z| z != 0).count();
+    assert!(used >= 1 && used == blp.image_count());
+    for i in 0..used {
+        let o = s.u32_at(loc + 4 * i);
+        let z = s.u32_at(loc + 64 + 4 * i);
+        assert_eq!((o, z), (offsets[i], sizes[i]));
+        assert!(o as usize + z as usize <= len);
+        s.field_ex(loc + 4 * i, 4, "offset", format!("mip[{i}].offset"), 0, 1, None);
+        s.field_ex(loc + 64 + 4 * i, 4, "bsize", format!("mip[{i}].size"), o as usize, 1, None);
+    }
+    if used < 16 {
+        s.field_ex(loc + 4 * used, 4, "offset", format!("mip[{used}].offset"), 0, 1, None);
+        s.field_ex(loc + 64 + 4 * used, 4, "bsize", format!("mip[{used}].size"), 0, 1, None);
+    }
+    if used < 15 {
+        s.field_ex(loc + 4 * 15, 4, "offset", "mip[15].offset", 0, 1, None);
+        s.field_ex(loc + 64 + 4 * 15, 4, "bsize", "mip[15].size", 0, 1, None);
+    }
+
+    if let BlpContent::Jpeg(j) = &blp.content {
+        assert_eq!(s.u32_at(content_at) as usize + 2, j.header.len());
+        s.field_ex(content_at, 4, "bsize", "jpeg.header_size", content_at + 4, 1, None);
+    }
+    s
 }
 
-pub fn run(_r: &mut Runner, _bytes: &[u8], _aux: &Aux) {}
+pub fn run(r: &mut Runner, bytes: &[u8], _aux: &Aux) {
+    r.call("parse_blp", || wow_blp::parser::parse_blp(bytes).map(|_| ()).map_err(errname));
+}
